@@ -402,14 +402,17 @@ func checkTripID(id gtfs.TripID, d map[string]any, loc *time.Location, where str
 				allDigits = false
 			}
 		}
-		if allDigits && e1 == nil && e2 == nil && e3 == nil && mo >= 1 && mo <= 12 && da >= 1 && da <= 28 {
+		if allDigits && e1 == nil && e2 == nil && e3 == nil {
 			if !id.HasStartDate {
 				bad("start date %q not surfaced", sd)
-			} else {
+			} else if mo >= 1 && mo <= 12 && da >= 1 && da <= 28 {
 				t := id.StartDate.In(loc)
 				if t.Format("20060102 15:04:05") != sd+" 00:00:00" {
 					bad("start date %v is not local midnight of %q in %s", id.StartDate, sd, loc)
 				}
+			} else if yr, _ := strconv.Atoi(sd[:4]); !id.StartDate.Equal(time.Date(yr, time.Month(mo), da, 0, 0, 0, 0, loc)) {
+				// days 29-31 and out-of-range months/days: the civil date after time.Date's normalisation
+				bad("start date %v is not the (normalised) date %q in %s", id.StartDate, sd, loc)
 			}
 		}
 	} else if !has(d, "startDate") && (id.HasStartDate || !id.StartDate.IsZero()) {
